@@ -73,8 +73,9 @@ def sym(ctx, cfg):
                       hashes=[[brewlib.s_crc32(core.SKey((SNum(s["scan"][i]), SNum(s["mass"][i])))) for i in range(s["n"])] for s in syms])
         tf = SNum(z3.Real("test_fdr"))
         try:
+            symnp.FLOAT_ADD_ORDER[0] = bool(cfg.get("ensemble"))
             _, modelsA, scoresA, _ = B.brew(dssA, model=brewlib.StubModel(logA, decision_function=False), test_fdr=tf, folds=folds, max_workers=2, rng=genA,
-                                            subset_max_train=cfg.get("cap"))
+                                            subset_max_train=cfg.get("cap"), ensemble=bool(cfg.get("ensemble")))
         except (ValueError, RuntimeError) as ex:
             return PathOutcome([], inputs, None, "legit_exc", note=type(ex).__name__ + "(" + str(ex)[:40] + ")")
         D.OnDiskPsmDataset._split = real_split
@@ -89,7 +90,7 @@ def sym(ctx, cfg):
             modelB = [modelsA[i] for i in order]
             inputs["model_order"] = order
         try:
-            _, modelsB, scoresB, _ = B.brew(dssB, model=modelB, test_fdr=tf, folds=folds, max_workers=2, rng=genB, subset_max_train=cfg.get("cap"))
+            _, modelsB, scoresB, _ = B.brew(dssB, model=modelB, test_fdr=tf, folds=folds, max_workers=2, rng=genB, subset_max_train=cfg.get("cap"), ensemble=bool(cfg.get("ensemble")))
         except Unsupported:
             raise
         except Exception as ex:
@@ -99,6 +100,7 @@ def sym(ctx, cfg):
     finally:
         D.OnDiskPsmDataset._split = real_split
         stubs.MODE[0] = "submission"
+        symnp.FLOAT_ADD_ORDER[0] = False
     if cfg.get("other_seed"):
         # the seed may reorder the rows inside a fold, never move a PSM to another fold: the models that are fed
         # back were trained on the complement of THEIR fold and must not meet their training PSMs
@@ -407,7 +409,9 @@ def harnesses(tier, for_c02=False):
         add("n=4,folds=2,models fed back in any order", dict(sizes=[4], folds=2, mode="feedback"))
         add("n=4,folds=3,models fed back in any order", dict(sizes=[4], folds=3, mode="feedback"))
         add("n=5,folds=2,cap=2,rerun same seed", dict(sizes=[5], folds=2, mode="rerun", cap=2, fixed_hash_order=True))
+        add("n=4,folds=3,ensemble,models fed back in any order", dict(sizes=[4], folds=3, mode="feedback", ensemble=True))
     else:
+        add("n=5,folds=3,ensemble,models fed back in any order", dict(sizes=[5], folds=3, mode="feedback", ensemble=True), 0.01)
         add("n=5,folds=2,rerun same seed,task order", dict(sizes=[5], folds=2, mode="rerun"), 0.01)
         add("n=4,folds=2,cap,rerun same seed", dict(sizes=[4], folds=2, mode="rerun", cap=3), 0.01)
         add("n=5,folds=2,cap=2,rerun same seed", dict(sizes=[5], folds=2, mode="rerun", cap=2, fixed_hash_order=True), 0.01)
@@ -451,19 +455,38 @@ def real_rerun(cfg, inp):
             scan, mass = c02.realize_keys(rows, inp["hashes"][fid])
             p, df = brewlib.real_dataset(None, d, fid, dict(rows, scan=scan, mass=mass), "pm1")
             dss.append(mokapot.read_pin(p, max_workers=1)[0])
-        _, models, scores, _ = mokapot.brew(dss, model=model, test_fdr=1.0, folds=folds, max_workers=workers, rng=seed_box[0] + seed_box[1], subset_max_train=cfg.get("cap"))
+        _, models, scores, _ = mokapot.brew(dss, model=model, test_fdr=1.0, folds=folds, max_workers=workers, rng=seed_box[0] + seed_box[1], subset_max_train=cfg.get("cap"),
+                                            ensemble=bool(cfg.get("ensemble")))
         return models, [np.asarray(s, dtype=float).tolist() for s in scores]
     Dm.OnDiskPsmDataset._split = rec_split
     try:
         v = dict(outputs=None, violation=None)
         for attempt in range(12 if cfg.get("_failed") else 1):  # an unseeded draw shows up only with some probability per pair of runs
             seed_box[0] = 42 + attempt // 2
+            _InexactModel.SALT[0] = attempt
             v = _pair(cfg, inp, run, splits, folds, seed_box)
             if v.get("violation"):
                 return v
         return v
     finally:
         Dm.OnDiskPsmDataset._split = orig_split
+
+
+class _InexactModel(c02._RealModel):
+    """scores that are not exactly representable, so that the order of a floating-point summation over the fold
+    models can show (the scores of c02._RealModel are small dyadic numbers whose sums are exact)"""
+    SALT = [0]
+
+    def __deepcopy__(self, memo):
+        m = _InexactModel(self.log, hasattr(self.estimator, "decision_function"))
+        m.is_trained, m.fold, m.trained_on = self.is_trained, self.fold, self.trained_on
+        return m
+
+    def predict(self, psms):
+        import math
+        import numpy as np
+        base = c02._RealModel.predict(self, psms)
+        return np.array([math.sin(1.0 + 0.37 * (self.fold or 0) * (1 + j) + self.SALT[0]) for j in range(len(base))], dtype=float)
 
 
 def _pair(cfg, inp, run, splits, folds, seed_box=None):
@@ -473,13 +496,14 @@ def _pair(cfg, inp, run, splits, folds, seed_box=None):
         seed_box[1] = 0
     with tempfile.TemporaryDirectory(prefix="verif_c08a_") as d1, tempfile.TemporaryDirectory(prefix="verif_c08b_") as d2:
         try:
-            modelsA, scoresA = run(d1, c02._RealModel({}, False), 1)
+            mk = _InexactModel if cfg.get("ensemble") else c02._RealModel
+            modelsA, scoresA = run(d1, mk({}, False), 1)
         except Exception as ex:
             return dict(exception=repr(ex), violation=None)
         nA = len(splits)
         try:
             if inp["mode"] == "rerun":
-                modelsB, scoresB = run(d2, c02._RealModel({}, False), 3)
+                modelsB, scoresB = run(d2, mk({}, False), 3)
             else:
                 order = inp.get("model_order") or list(range(folds))[::-1]
                 if cfg.get("other_seed") and seed_box is not None:
